@@ -8,11 +8,13 @@ CONSTANTS
   OpTheories <- cTheories
   OpModules <- cModules
   Present0 <- cTheories
+  Origin <- cOrigin
   Items0 <- cItems0
   LimitsOf <- cLimits
   FileOps = {}
   Variants <- Fixed
   GoodVariants <- Fixed
+  PrintGood = FALSE
   MaxOps = 3
   MaxDepth = 40
   AllowFault = TRUE
